@@ -29,6 +29,11 @@ impl CaseOut {
 	pub fn label(&mut self, l: &str) {
 		self.labels.insert(l.to_string());
 	}
+	pub fn excluded_known_count(&mut self, n: u64) {
+		if n > 0 {
+			self.count("excluded_known", n);
+		}
+	}
 	pub fn count(&mut self, k: &str, n: u64) {
 		*self.counters.entry(k.to_string()).or_insert(0) += n;
 	}
@@ -201,6 +206,9 @@ impl Ctx {
 		}
 		for (k, v) in &out.counters {
 			*rep.counters.entry(k.clone()).or_insert(0) += v;
+			if k.starts_with("excluded_known") {
+				rep.excluded_known += v;
+			}
 		}
 		if rep.samples.len() < 3 && (out.nontrivial || rep.cases > 20) {
 			let mut v = serde_json::to_value(case).unwrap_or(serde_json::Value::Null);
